@@ -35,6 +35,7 @@ def check(run):
     meta += m2
     rejects = qobs.judge(run, cases)
     c01.report(run, "C05", cases, meta, rejects, "c05")
+    rank_regime(run, rng, 6 if quick else 60, 12 if quick else 16)
     # the collector itself: design model (Collector.tla) and step-by-step validation of real collections
     from harness import coltrace, tlc
     for cfg in ("CollectorMC.cfg", "CollectorMC_collapse.cfg"):
@@ -48,6 +49,94 @@ def check(run):
     run.extra["optimisation_engaged"] = qobs.ENGAGED.copy()
     if not qobs.ENGAGED.get("skipped") and not qobs.ENGAGED.get("replaced"):
         run.machinery("vacuity: no limited search engaged block skipping or matcher replacement")
+
+
+def rank_weightings():
+    from whoosh import scoring
+    from harness.props import c09
+
+    class Raised(scoring.BM25F):           # a final() hook that raises every score
+        use_final = True
+
+        def final(self, searcher, docnum, score):
+            return score * 3.0 + 2.0
+
+    class ByNumber(scoring.TF_IDF):        # a final() hook that depends on the document
+        use_final = True
+
+        def final(self, searcher, docnum, score):
+            return score + (docnum % 3) * 1.5
+    return c09.all_weightings() + [("BM25F+raising final", Raised()), ("TF_IDF+final(docnum)", ByNumber())]
+
+
+def _intern(lists):
+    """scores of several (doc, score) lists -> ranks (higher = better), equal within a relative 1e-9"""
+    vals = sorted(set(float(sc) for lst in lists for _, sc in lst))
+    ranks, last, r = {}, None, 0
+    for v in vals:
+        if last is None or abs(v - last) > 1e-9 * max(1.0, abs(v), abs(last)):
+            r += 1
+        ranks[v] = r
+        last = v
+    return [[[int(d), ranks[float(sc)]] for d, sc in lst] for lst in lists]
+
+
+def rank_regime(run, rng, nworlds, nqueries):
+    """Every weighting model (shipped ones, Multi/Function weightings, final() hooks): search(limit=k) is the
+    prefix of the code's own search(limit=None), which lists exactly QuerySem's matching documents best first."""
+    cases, meta = [], []
+    for wi in range(nworlds):
+        n = rng.randrange(8, 24)
+        adocs = {"k%d" % i: world.rand_doc(rng, boosts=(wi % 2 == 1)) for i in range(n)}
+        plan = world.rand_plan(rng, adocs.keys())
+        wcfg = {"storage": "ram", "blocklimit": rng.choice([1, 2, 3, None])}
+        w = world.World(adocs, plan, **wcfg)
+        try:
+            idx = None
+            queries = [world.rand_query(rng, rng.randrange(0, 3), scored_only=True, ops=NOFUZZY) for _ in range(nqueries)]
+            qobs_by_q = [{"q": aq, "obs": []} for aq in queries]
+            for wname, wobj in rng.sample(rank_weightings(), 4):
+                with w.ix.searcher(weighting=wobj) as s:
+                    if idx is None:
+                        idx = w.abstract_index(s.reader())
+                    for qi, aq in enumerate(queries):
+                        q = world.to_query(aq)
+                        try:
+                            full = [(h.docnum, h.score) for h in s.search(q, limit=None)]
+                            for k in rng.sample([1, 2, 3, 5, 8], 2):
+                                hits = [(h.docnum, h.score) for h in s.search(q, limit=k)]
+                                lists = [full, hits]
+                                alt = None
+                                try:
+                                    with qobs.scaled_wrapping_replace():
+                                        alt = [(h.docnum, h.score) for h in s.search(q, limit=k)]
+                                    lists.append(alt)
+                                except Exception:
+                                    alt = None
+                                il = _intern(lists)
+                                o = {"kind": "topprefix", "path": "%s limit=%d" % (wname, k), "k": k, "full": il[0], "hits": il[1]}
+                                if alt is not None and il[2] != il[1]:
+                                    o["alt"] = il[2]
+                                qobs_by_q[qi]["obs"].append(o)
+                        except Exception as ex:
+                            qobs_by_q[qi]["obs"].append({"kind": "error", "path": wname, "err": type(ex).__name__,
+                                                         "msg": str(ex)[:120]})
+                        run.count(2)
+            cases.append({"idx": idx, "qs": qobs_by_q})
+            meta.append({"plan": plan, "nseg": 0, "deleted": sum(1 for d in idx["docs"] if not d["live"]), "world": wcfg})
+        finally:
+            w.close()
+    rejects = qobs.judge(run, cases, name="QueryCheck-rank")
+    # recorded finding (WrappingMatcher.replace unscaled): recognised when the same limited search with that one
+    # method corrected is the prefix of the exhaustive ranking
+    extra = {}
+    for ci, qi, oi, exp in rejects:
+        o = cases[ci]["qs"][qi]["obs"][oi]
+        if o["kind"] == "topprefix" and "alt" in o and o["alt"] == o["full"][:o["k"]]:
+            extra[(ci, qi, oi)] = "wrapping-replace-unscaled"
+    c01.EXTRA_CLASSES = extra
+    c01.report(run, "C05", cases, meta, rejects, "c05-rank")
+    c01.EXTRA_CLASSES = {}
 
 
 def replay(run, rp):
